@@ -437,6 +437,28 @@ func Corpus(c *Ctx) []*FileSpec {
 		add("imp3", "fields-of-imported-types", true, f)
 		out[len(out)-1].Imports = []string{"impdep"}
 	}
+	{ // a file that re-exports impdep with `import public`
+		f := c.File("pubmid", "proto3")
+		f.Dependency = []string{c.PathPrefix + "/impdep.proto"}
+		f.PublicDependency = []int32{0}
+		f.MessageType = append(f.MessageType, Msg("Mid", F("m", 1, Opt, "string"), F("n", 2, Rep, "uint32")))
+		add("pubmid", "import-public-re-export", true, f)
+		out[len(out)-1].Imports = []string{"impdep"}
+	}
+	{ // importer that reaches impdep's types ONLY through pubmid's `import public` (it does not import impdep itself)
+		f := c.File("imppub", "proto3")
+		f.Dependency = []string{c.PathPrefix + "/pubmid.proto"}
+		dep := c.Pkg("impdep")
+		m := Msg("Via", F("at", 1, Opt, FullName(dep, "Stamp")), F("hist", 2, Rep, FullName(dep, "Stamp")), F("mid", 3, Opt, FullName(c.Pkg("pubmid"), "Mid")), F("label", 4, Opt, "string"))
+		if !c.GogoWKT {
+			m.Field = append(m.Field, F("unit", 5, Opt, "enum:"+FullName(dep, "Unit")))
+		}
+		MapField(m, FullName(c.Pkg("imppub"), "Via"), "by_id", 6, "int32", FullName(dep, "Stamp"))
+		Oneof(m, "pick", F("o_stamp", 7, Opt, FullName(dep, "Stamp")), F("o_mid", 8, Opt, FullName(c.Pkg("pubmid"), "Mid")))
+		f.MessageType = append(f.MessageType, m)
+		add("imppub", "types-reached-through-import-public", true, f)
+		out[len(out)-1].Imports = []string{"impdep", "pubmid"}
+	}
 	{ // a proto3 message that contains proto2 messages with required fields (defined in file "required")
 		f := c.File("p3req", "proto3")
 		f.Dependency = []string{c.PathPrefix + "/required.proto"}
